@@ -32,7 +32,7 @@ func runC16(ctx *Ctx) {
 		{"465b5ce8b199b49faa5f0a2ee238a6bc", "cd63cb71954a9f4e48a5994e37a02baf", ""},
 	}
 	r.Rule = fmt.Sprintf("for each of %d initial IMSIs (leading zeros, 2-/3-digit MNC, 13..15 digits, MSIN ending ...0000/...9990/...99999) x %d credential triples: CreateUE for EVERY index 0..%d exactly as main() calls it; "+
-		"oracle: SUPIs pairwise distinct, 'imsi-' + same number of digits, same MCC/MNC prefix, all decimal; RAN-UE-NGAP-IDs pairwise distinct; K/OP/OPc carried unchanged; security capability octets == 0x80>>alg for the context's algorithms (also for all 4x4 algorithm pairs); "+
+		"plus every history of <=3 CreateUE calls over 8 credential triples with shared substrings; oracle: SUPIs pairwise distinct, 'imsi-' + same number of digits, same MCC/MNC prefix, all decimal; RAN-UE-NGAP-IDs pairwise distinct; K/OP/OPc carried unchanged; security capability octets == 0x80>>alg for the context's algorithms (also for all 4x4 algorithm pairs); "+
 		"non-trivial = index>0; distinct = (config, credential, index)", len(cfgs), len(creds), pop-1)
 	type job struct {
 		c  cfg
@@ -86,6 +86,45 @@ func runC16(ctx *Ctx) {
 		}
 	})
 	r.Sample("imsi=001010000000001 mncLen=2 indices 0..9999: supi, ranUeNgapId, credentials, capability")
+	// Histories: every sequence of <=3 CreateUE calls over a credential alphabet whose members share
+	// substrings (same hex string once as OPc and once as OP, prefixes moved between K and OPc, empty strings),
+	// so that anything remembered between calls (caches, shared pointers) shows; all contexts are re-checked at the end.
+	X, Y := "e8ed289deba952e4283b54e88e6183ca", "465b5ce8b199b49faa5f0a2ee238a6bc"
+	halpha := [][3]string{{Y, X, ""}, {Y, "", X}, {Y, X, X}, {"0011", "2233445566778899aabbccddeeff0011", ""}, {"00112233", "445566778899aabbccddeeff0011", ""},
+		{"", Y, X}, {Y + X, "", ""}, {Y, X, Y}}
+	lh := r.Local()
+	nseq := 0
+	var rec func(seq []int)
+	rec = func(seq []int) {
+		if len(seq) > 0 {
+			nseq++
+			var ues []*tglib.RanUeContext
+			cs := "history:"
+			for i, ci := range seq {
+				c := halpha[ci]
+				cs += fmt.Sprintf(" CreateUE(k=%q,opc=%q,op=%q)", c[0], c[1], c[2])
+				ues = append(ues, stgutg.CreateUE("001010000000001", i, c[0], c[1], c[2]))
+			}
+			for i, ci := range seq {
+				c := halpha[ci]
+				a := ues[i].AuthenticationSubs
+				if a.PermanentKey == nil || a.PermanentKey.PermanentKeyValue != c[0] || a.Opc == nil || a.Opc.OpcValue != c[1] || a.Milenage == nil || a.Milenage.Op == nil || a.Milenage.Op.OpValue != c[2] {
+					r.Violate("credentials/changed-by-history", cs, fmt.Sprintf("UE %d carries k=%v opc=%v op=%v", i, a.PermanentKey, a.Opc, a.Milenage), seq)
+				}
+			}
+			lh.Case(cs, len(seq) > 1, fmt.Sprint(seq))
+		}
+		if len(seq) == 3 {
+			return
+		}
+		for i := range halpha {
+			rec(append(append([]int{}, seq...), i))
+		}
+	}
+	rec(nil)
+	lh.Merge()
+	r.Set("creation_histories", nseq)
+	r.Sample("history: CreateUE(k=K,opc=X,op=\"\") CreateUE(k=K,opc=\"\",op=X) -> each context carries exactly its own strings")
 	l := r.Local()
 	for enc := uint8(0); enc < 4; enc++ {
 		for in := uint8(0); in < 4; in++ {
